@@ -243,12 +243,12 @@ impl Check for C13 {
         "exploration"
     }
     fn rule(&self) -> String {
-        "Each run is a history of operations applied to one library Update{Item,Container,Unit,Player,GameObject,DynamicObject,Corpse} object (3 expansions) on a simulated server and to a reference model, with a client replica fed through the wire: typed builder setters + finalize, typed setters and getters on the built mask (every generated accessor with a standard signature is reachable through a dispatch table generated from impls.rs), dirty_reset, mark_fully_dirty, has_any_dirty_fields, is_bit_dirty, flush (send SMSG_UPDATE_OBJECT with a Values block, then dirty_reset) and client restart (replica wiped, mark_fully_dirty, next flush must carry every present field). Enumerated part: for every generated setter and builder setter, a fresh object, one set with a unique value, one flush: exactly the offsets [table.offset, table.offset+words) must appear with the bit layout the type implies. Sampled part: random histories of 1-40 operations biased to a small field set per kind. Oracles per operation: getter = value last set; flushed block decoded by the model's decoder: block count, mask bits = present AND dirty, values ascending, nothing else, header size and declared size = bytes written; when the block carries the object-type field the library's own decoder must return exactly the written fields; dirty queries where the statement fixes them. Non-trivial: at least one flush after a set; distinct = distinct event-log hashes.".into()
+        "Each run is a history of operations applied to one library Update{Item,Container,Unit,Player,GameObject,DynamicObject,Corpse} object (3 expansions) on a simulated server and to a reference model, with a client replica fed through the wire: typed builder setters + finalize, typed setters and getters on the built mask (every generated accessor with a standard signature is reachable through a dispatch table generated from impls.rs), dirty_reset, mark_fully_dirty, has_any_dirty_fields, is_bit_dirty, flush (send SMSG_UPDATE_OBJECT with a Values block, then dirty_reset) and client restart (replica wiped, mark_fully_dirty, next flush must carry every present field). Enumerated part: for every generated setter and builder setter, a fresh object, one set with a unique value (custom signatures too: item slots, race/class/gender/power, stand state, VisibleItem and SkillInfo structures), one flush: exactly the offsets [table.offset, table.offset+words) must appear with the bit layout the type implies. Sampled part: random histories of 1-40 operations biased to a small field set per kind. Oracles per operation: getter = value last set; flushed block decoded by the model's decoder: block count, mask bits = present AND dirty, values ascending, nothing else, header size and declared size = bytes written; when the block carries the object-type field the library's own decoder must return an object of the written KIND carrying exactly the written fields; dirty queries where the statement fixes them. Non-trivial: at least one flush after a set; distinct = distinct event-log hashes.".into()
     }
     fn assumptions(&self) -> Vec<String> {
         vec![
             "offsets, sizes and types come only from the published table in wowm_language/src/types/update-mask.md".into(),
-            "accessors with non-standard signatures (VisibleItem, SkillInfo, ItemSlot, Race/Class/Gender/Power, player bytes) are skipped and counted".into(),
+            "structured accessors (VisibleItem, SkillInfo) are judged by round trip and by staying inside the table range of their field; where the published table itself lists overlapping ranges (TBC PLAYER_VISIBLE_ITEM vs PLAYER_FIELD_INV) they are not used and the overlap is reported in the evidence".into(),
             "dirty queries outside what the statement fixes (index beyond the current mask, has_any_dirty_fields after mark_fully_dirty) are not judged and out-of-range indices are not generated".into(),
         ]
     }
